@@ -42,10 +42,10 @@ type GotestsOp struct {
 // GotestsOpPair is a set of operators evaluated under one binding of the constants.
 type GotestsOpPair struct {
 	Pair      string
-	Constants []string                        // cfg lines
-	Config    []distsys.MPCalContextConfigFn  // the same binding for the Go side
+	Constants []string                       // cfg lines
+	Config    []distsys.MPCalContextConfigFn // the same binding for the Go side
 	Ops       []GotestsOp
-	Skipped   map[string]string               // operators not compared, with the reason
+	Skipped   map[string]string // operators not compared, with the reason
 }
 
 func gtOp0(name string, f func(distsys.ArchetypeInterface) tla.Value) GotestsOp {
